@@ -6,6 +6,7 @@ import (
 	"go/constant"
 	"go/token"
 	"go/types"
+	"os"
 	"sort"
 	"strings"
 
@@ -16,6 +17,9 @@ func init() {
 	register(&Property{ID: "C09", Run: runC09, Mutants: []Mutant{
 		{Name: "SSA builder forgets the Chinese break", File: "internal/ssa/builder.go", Old: "case token.BREAK, token.Zh_跳出:", New: "case token.BREAK:", Expect: "bilingual-case-completeness"},
 		{Name: "type checker forgets the Chinese continue", File: "internal/types/stmt.go", Old: "case token.CONTINUE, token.Zh_继续:", New: "case token.CONTINUE:", Expect: "bilingual-case-completeness"},
+		{Name: "wz parser never recognises a three-index slice", File: "internal/parser/w2parser/parser_expr.go", Old: "if ncolons == 2 {", New: "if ncolons == N {", Expect: "parser-sibling-agreement"},
+		{Name: "Chinese u16 bound to 32 bits", File: "internal/types/universe_wz.go", Old: "{Uint16, IsInteger | IsUnsigned, token.K_短正整}", New: "{Uint32, IsInteger | IsUnsigned, token.K_短正整}", Expect: "universe-alias-kinds"},
+		{Name: "Chinese i64 bound to int", File: "internal/types/universe_wz.go", Old: "{Int64, IsInteger, token.K_长整型}", New: "{Int, IsInteger, token.K_长整型}", Expect: "universe-alias-kinds"},
 		{Name: "Chinese __LINE__ accessor returns the English object", File: "internal/types/universe.go", Old: "\tif p.pkg.W2Mode {\n\t\treturn wzUniverse__LINE__", New: "\tif p.pkg.W2Mode {\n\t\treturn waUniverse__LINE__", Expect: "language-accessor-pairing :: internal/types.Checker._universe__LINE__"},
 		{Name: "Wz universe loses a builtin", File: "internal/types/universe_wz.go", Old: "\t_Len:     {K_长, 1, false, expression},\n", New: "", Expect: "universe-bijection"},
 		{Name: "Wz builtin arity differs", File: "internal/types/universe_wz.go", Old: "\t_Cap:     {K_容量, 1, false, expression},", New: "\t_Cap:     {K_容量, 2, false, expression},", Expect: "universe-bijection :: _Cap"},
@@ -64,7 +68,11 @@ func runC09(c *Ctx) {
 		"NOT decided: that the two parsers build equal trees for equal programs; per-arm pairing of print/println with their Chinese names (the universe table and the docs disagree and the back end dispatches on the name, so behaviour is consistent)."
 	c.Trusted = []string{"go/packages, go/types (x/tools v0.29.0)", "frozen twin-token table (c09.go)"}
 	p := c.Load(LoadOpt{Light: true}, "./internal/token", "./internal/types", "./internal/ssa", "./internal/ast", "./internal/ast/astutil", "./internal/loader", "./internal/format", "./internal/printer",
-		"./internal/backends/compiler_wat", "./internal/app/appgo2wa", "./internal/app/appgo2wz", "./internal/lsp", "./internal/parser/w2parser")
+		"./internal/backends/compiler_wat", "./internal/app/appgo2wa", "./internal/app/appgo2wz", "./internal/lsp", "./internal/parser/w2parser", "./internal/parser")
+	c09ParserSiblings(c, p)
+	if os.Getenv("VERIF_C09_DUMP") == "1" {
+		return
+	}
 	const r1, r2, r3 = "bilingual-case-completeness", "universe-bijection", "keyword-table"
 	twinOf := map[string]string{}
 	for _, t := range c09Twins {
@@ -76,6 +84,7 @@ func runC09(c *Ctx) {
 		return
 	}
 	c09AccessorPairing(c, p, p.Pkg("internal/types"), p.Pkg("internal/loader"), p.Pkg("internal/ssa"))
+	c09AliasKinds(c, p, p.Pkg("internal/types"))
 	// the twin table must name existing constants
 	for _, t := range c09Twins {
 		for _, n := range t {
